@@ -27,7 +27,8 @@ RULE = (
     "the library's relabel_atoms (copy / in place); a third source builds the "
     "graph through a random editing history (removals, in-place relabels, "
     "deleted descriptors / changes) and compares it with a renamed fresh "
-    "build of the same labelled graph. Oracle: a==b, b==a, "
+    "build of the same labelled graph (in half of the histories read-only "
+    "uses - hash, ==, views - happen after every edit). Oracle: a==b, b==a, "
     "a.is_isomorphic(b), a==a, b==b all True. Non-trivial: renaming moves "
     ">=1 atom AND the graph has a descriptor, stereo change, non-plain bond, "
     "isolated atom or >=2 components; distinct = SHA-1 of the case."
@@ -166,6 +167,9 @@ def check_history(ctx, case):
     try:
         for op in case["ops"]:
             g = O.apply_real(g, op)
+            # read-only uses between the edits: a memoised hash / component
+            # list / colouring must not survive the next edit
+            O.pre_use(g, case.get("observe", 0))
     except Exception:
         return None                       # C09's business
     mp = {a: b for a, b in case["mapping"] if a in m.atoms}
@@ -301,7 +305,8 @@ def run(ctx):
                 list(dict.fromkeys(atoms + pool)))[:len(atoms)]))
         return {"via": "history", "cls": cls, "ops": ops,
                 "mapping": [[a, b] for a, b in mp.items()],
-                "tseed": tp.below(1 << 30)}
+                "tseed": tp.below(1 << 30),
+                "observe": tp.pick([0, 0, 1, 3])}
 
     def check_h(case):
         res = check_history(ctx, case)
